@@ -1,4 +1,7 @@
+import re
 from typing import TypeVar, Generic, Pattern, Callable, Iterator, Optional, Sequence
+
+from exactly_lib.common.report_rendering import text_docs
 
 from exactly_lib.definitions.entity import syntax_elements
 from exactly_lib.impls.description_tree import custom_details
@@ -11,6 +14,7 @@ from exactly_lib.impls.types.string_transformer.impl.sources.transformed_string_
     StringTransformerFromLinesTransformer
 from exactly_lib.symbol.sdv_structure import references_from_objects_with_symbol_references, SymbolReference
 from exactly_lib.tcfs.tcds import TestCaseDs
+from exactly_lib.test_case.hard_error import HardErrorException
 from exactly_lib.test_case.app_env import ApplicationEnvironment
 from exactly_lib.type_val_deps.dep_variants.adv.app_env_dep_val import ApplicationEnvironmentDependentValue
 from exactly_lib.type_val_deps.dep_variants.ddv import ddv_validators
@@ -30,6 +34,7 @@ from exactly_lib.util.description_tree import details, renderers
 from exactly_lib.util.description_tree.renderer import NodeRenderer, DetailsRenderer
 from exactly_lib.util.description_tree.tree import Node
 from exactly_lib.util.render import strings
+from exactly_lib.util.str_ import str_constructor
 from exactly_lib.util.symbol_table import SymbolTable
 
 
@@ -82,17 +87,33 @@ class _StrReplacer(_Replacer[str]):
         raise NotImplementedError('abstract method')
 
 
+    def _sub(self, s: str) -> str:
+        """
+        :raises HardErrorException: The replacement string is invalid
+        """
+        try:
+            return self._regex.sub(self._replacement, s)
+        except re.error as ex:
+            raise HardErrorException(
+                text_docs.single_pre_formatted_line_object(
+                    str_constructor.FormatPositional('Invalid replacement {}: {}',
+                                                     syntax_elements.STRING_SYNTAX_ELEMENT.singular_name,
+                                                     ex)
+                )
+            )
+
+
 class _StrReplacerIncludingNewLines(_StrReplacer):
     def process(self, line: str) -> str:
-        return self._regex.sub(self._replacement, line)
+        return self._sub(line)
 
 
 class _StrReplacerExcludingNewLines(_StrReplacer):
     def process(self, line: str) -> str:
         if line[-1] == '\n':
-            return self._regex.sub(self._replacement, line[:-1]) + '\n'
+            return self._sub(line[:-1]) + '\n'
         else:
-            return self._regex.sub(self._replacement, line)
+            return self._sub(line)
 
 
 class _ReplacerWLineMatcherSelector(_Replacer[FullContentsAndLineMatcherLine]):
